@@ -24,6 +24,22 @@ pub enum PathKind {
     MissingParents,
     Directory,
     DanglingSymlink,
+    /// the path is a symbolic link to a regular file with this content
+    SymlinkTo(Vec<u8>),
+    /// the path's parent directory is a symbolic link (as /var/run is on most systems); regular file with this content
+    ViaSymlinkedDir(Vec<u8>),
+    /// the path is one of two hard links to a regular file with this content
+    HardLink(Vec<u8>),
+}
+
+impl PathKind {
+    /// content of the regular file the path leads to, if it leads to one
+    pub fn content(&self) -> Option<&Vec<u8>> {
+        match self {
+            PathKind::File(b) | PathKind::SymlinkTo(b) | PathKind::ViaSymlinkedDir(b) | PathKind::HardLink(b) => Some(b),
+            _ => None,
+        }
+    }
 }
 
 #[derive(Clone, Debug)]
@@ -81,7 +97,7 @@ pub fn reference(kind: &PathKind) -> Expect {
     match kind {
         PathKind::Missing | PathKind::MissingParents | PathKind::DanglingSymlink => Expect::Syscall(libc::ENOENT),
         PathKind::Directory => Expect::Syscall(libc::EISDIR),
-        PathKind::File(b) => {
+        PathKind::File(b) | PathKind::SymlinkTo(b) | PathKind::ViaSymlinkedDir(b) | PathKind::HardLink(b) => {
             if b.len() < 16 {
                 return Expect::NotInitialized;
             }
@@ -122,6 +138,27 @@ pub fn materialise(case: &FileCase, dir: &Path) -> PathBuf {
         PathKind::Directory => {
             let p = dir.join("shm");
             std::fs::create_dir_all(&p).expect("mkdir");
+            p
+        }
+        PathKind::SymlinkTo(b) => {
+            let t = dir.join("the-real-file");
+            std::fs::write(&t, b).expect("write case file");
+            let p = dir.join("shm");
+            std::os::unix::fs::symlink(&t, &p).expect("symlink");
+            p
+        }
+        PathKind::ViaSymlinkedDir(b) => {
+            let real = dir.join("real-dir");
+            std::fs::create_dir_all(&real).expect("mkdir");
+            std::fs::write(real.join("shm"), b).expect("write case file");
+            std::os::unix::fs::symlink(&real, dir.join("run")).expect("symlink");
+            dir.join("run").join("shm")
+        }
+        PathKind::HardLink(b) => {
+            let t = dir.join("other-name");
+            std::fs::write(&t, b).expect("write case file");
+            let p = dir.join("shm");
+            std::fs::hard_link(&t, &p).expect("link");
             p
         }
         PathKind::DanglingSymlink => {
@@ -220,6 +257,13 @@ pub fn cases(tier: Tier) -> Vec<FileCase> {
     v.push(FileCase { label: "missing parent directories".into(), kind: PathKind::MissingParents });
     v.push(FileCase { label: "a directory".into(), kind: PathKind::Directory });
     v.push(FileCase { label: "a dangling symlink".into(), kind: PathKind::DanglingSymlink });
+    // what the path is, apart from what the file contains: reached through a symbolic link (last component, or
+    // the parent directory as with /var/run -> /run), or one of two hard links
+    for (what, b) in [("a valid segment", full.clone()), ("an empty file", vec![]), ("a valid header on a 40-byte file", { let mut b = full.clone(); b.truncate(40); b }), ("72 bytes of 0xAA", vec![0xAA; SEG])] {
+        v.push(FileCase { label: format!("a symbolic link to {what}"), kind: PathKind::SymlinkTo(b.clone()) });
+        v.push(FileCase { label: format!("{what} in a directory reached through a symbolic link"), kind: PathKind::ViaSymlinkedDir(b.clone()) });
+        v.push(FileCase { label: format!("one of two hard links to {what}"), kind: PathKind::HardLink(b) });
+    }
     v
 }
 
@@ -263,7 +307,7 @@ impl Tally {
 }
 
 fn case_doc(i: usize, c: &FileCase) -> Value {
-    json!({"check": "C16", "case_index": i, "label": c.label, "bytes": match &c.kind { PathKind::File(b) => json!(b), _ => Value::Null }})
+    json!({"check": "C16", "case_index": i, "label": c.label, "bytes": match c.kind.content() { Some(b) => json!(b), None => Value::Null }})
 }
 
 type OpenObs = Result<(), (&'static str, i32, String)>;
@@ -302,7 +346,15 @@ fn client_open(path: &Path) -> Value {
             _ => unreachable!(),
         },
     };
-    json!([obs_json(&r1), obs_json(&r2)])
+    // resource accounting: an attach that fails, or succeeds and is dropped again, leaves no descriptor and no
+    // mapping behind (a client polls for the daemon to come up; a leak per attempt ends in EMFILE / ENOMEM)
+    let (f0, m0) = crate::common::resources();
+    for _ in 0..3 {
+        let _ = ShmReader::new(&cpath);
+        let _ = ClockBoundClient::new_with_path(path.to_str().unwrap());
+    }
+    let (f1, m1) = crate::common::resources();
+    json!([obs_json(&r1), obs_json(&r2), {"fds": [f0, f1], "maps": [m0, m1]}])
 }
 
 /// what a new client sees after the daemon's start-up and first publication of `rec`: a list of [signature, text]
@@ -372,6 +424,16 @@ fn eval_case(i: usize, c: &FileCase, dir: &Path, t: &mut Tally, cross: bool) {
             }
         }
     }
+    {
+        let (f0, f1) = (o[2]["fds"][0].as_u64().unwrap_or(0), o[2]["fds"][1].as_u64().unwrap_or(0));
+        let (m0, m1) = (o[2]["maps"][0].as_u64().unwrap_or(0), o[2]["maps"][1].as_u64().unwrap_or(0));
+        if f1 > f0 {
+            t.add("C16:open:descriptor-leak", format!("{note}{}: three more attach attempts ({r1:?}) took the process from {f0} to {f1} open file descriptors", c.label), doc());
+        }
+        if m1 > m0 {
+            t.add("C16:open:mapping-leak", format!("{note}{}: three more attach attempts ({r1:?}) took the process from {m0} to {m1} memory mappings", c.label), doc());
+        }
+    }
     if r1 != r2 {
         t.add("C16:client-differs-from-reader", format!("{note}{}: ShmReader::new {r1:?} but ClockBoundClient::new_with_path {r2:?}", c.label), doc());
     }
@@ -416,7 +478,7 @@ fn eval_case(i: usize, c: &FileCase, dir: &Path, t: &mut Tally, cross: bool) {
 }
 
 pub fn run(ctx: &Ctx) -> i32 {
-    std::panic::set_hook(Box::new(|_| {}));
+    crate::common::report::quiet_panics();
     let all = cases(ctx.tier);
     let base = ctx.scratch();
     if let Some(p) = &ctx.replay {
